@@ -23,6 +23,7 @@ func forkAndExecInChild(r *Runner, argv0 *byte, argv, env []*byte, workdir, host
 		unshareUser = r.CloneFlags&unix.CLONE_NEWUSER == unix.CLONE_NEWUSER
 		i           int
 		rlim        rlimit.RLimit
+		linkBuf     [1]byte
 	)
 	pipe := p[1]
 	// child may share memory with parent (vfork), the moved fd number must not be written back to r
@@ -261,11 +262,19 @@ func forkAndExecInChild(r *Runner, argv0 *byte, argv, env []*byte, workdir, host
 					if err1 != 0 && err1 != syscall.EEXIST {
 						childExitErrorWithIndex(pipe, LocMountMkdir, i, err1)
 					}
-					break
+				} else {
+					_, _, err1 = syscall.RawSyscall(syscall.SYS_MKDIRAT, uintptr(_AT_FDCWD), uintptr(unsafe.Pointer(p)), 0755)
+					if err1 != 0 && err1 != syscall.EEXIST {
+						childExitErrorWithIndex(pipe, LocMountMkdir, i, err1)
+					}
 				}
-				_, _, err1 = syscall.RawSyscall(syscall.SYS_MKDIRAT, uintptr(_AT_FDCWD), uintptr(unsafe.Pointer(p)), 0755)
-				if err1 != 0 && err1 != syscall.EEXIST {
-					childExitErrorWithIndex(pipe, LocMountMkdir, i, err1)
+				if err1 == syscall.EEXIST {
+					// an existing symbolic link (left in a writable mount by an earlier program) would redirect
+					// the mount away from its declared target: readlinkat succeeds only on links
+					_, _, err1 = syscall.RawSyscall6(syscall.SYS_READLINKAT, uintptr(_AT_FDCWD), uintptr(unsafe.Pointer(p)), uintptr(unsafe.Pointer(&linkBuf[0])), uintptr(len(linkBuf)), 0, 0)
+					if err1 == 0 {
+						childExitErrorWithIndex(pipe, LocMountMkdir, i, syscall.ELOOP)
+					}
 				}
 			}
 			// mount(source, target, fsType, flags, data)
